@@ -42,7 +42,75 @@ func genTailRops(r *hx.Rng) []rop {
 	return ops
 }
 
+// ---------------------------------------------------------------- Exp-Golomb codes of any length (theorem C13_read_golomb_any)
+// p bits (0..7), then 1..3 codes of q zero bits, a one and q suffix bits (q = 0..80, boundaries 56..58 and 63..65 preferred),
+// then the marker byte a5 at whatever alignment that leaves, zero padding; the whole escaped.  Every code read then starts at
+// a state the theorem speaks about (error-free, its q zeros + one + q bits ahead): its hypotheses hold by construction.
+type longCodes struct {
+	data []byte
+	p    int
+	qs   []int
+	sufs [][]byte // the suffix bits of each code
+}
+
+func genLongCodes(r *hx.Rng) longCodes {
+	var lc longCodes
+	var q bitbuf
+	lc.p = r.Intn(8)
+	q.put(r.U64(), lc.p)
+	for k := r.Range(1, 3); k > 0; k-- {
+		z := r.Range(0, 80)
+		if r.Intn(2) == 0 {
+			z = r.Pick(31, 32, 33, 56, 57, 58, 59, 60, 63, 64, 65, 71, 72)
+		}
+		q.put(0, z)
+		q.put(1, 1)
+		suf := make([]byte, z)
+		mode := r.Intn(3)
+		for i := range suf {
+			switch mode {
+			case 0:
+				suf[i] = 0
+			case 1:
+				suf[i] = 1
+			default:
+				suf[i] = byte(r.U64() & 1)
+			}
+		}
+		q.b = append(q.b, suf...)
+		lc.qs = append(lc.qs, z)
+		lc.sufs = append(lc.sufs, suf)
+	}
+	q.put(0xa5, 8)
+	for len(q.b)%8 != 0 {
+		q.b = append(q.b, 0)
+	}
+	lc.data = naiveEscape(q.bytes())
+	return lc
+}
+
+func (lc longCodes) ops(signed bool) []string {
+	var ops []string
+	if lc.p > 0 {
+		ops = append(ops, "b:"+fmt.Sprint(lc.p))
+	}
+	for range lc.qs {
+		if signed {
+			ops = append(ops, "S")
+		} else {
+			ops = append(ops, "u")
+		}
+	}
+	return append(ops, "b:8", "b:1")
+}
+
 func corrTail(r *hx.Rng, n int, id *int) {
+	for i := 0; i < n/4+16; i++ { // G-marked R lines: mode E, ops u / S on codes of any length
+		lc := genLongCodes(r)
+		ops := lc.ops(i%3 == 2)
+		fmt.Fprintf(out, "R\t%d\tE\t%s\t%s\t%s\n", *id, hx.Hex(lc.data), strings.Join(ops, ";"), strings.Join(runReaderX(lc.data, ops, true), ","))
+		*id++
+	}
 	emit := func(data []byte, rops []rop) {
 		fmt.Fprintf(out, "R\t%d\tP\t%s\t%s\t%s\n", *id, hx.Hex(data), ropsString(rops), strings.Join(runPlainReader(data, rops), ","))
 		*id++
@@ -79,6 +147,52 @@ func corrTail(r *hx.Rng, n int, id *int) {
 // the call the reader has nothing left.  WriteString: the bytes of the string (+ 00), or nothing and the error.
 func searchTail(r *hx.Rng, n int) int {
 	evals := 0
+	// Exp-Golomb codes of any length: a code of q zeros, a one and q bits is 2q+1 bits long whatever its value, so the marker
+	// byte behind the codes is read back and no error is set; a code with q <= 57 has the value of the standard
+	// (2^q - 1 + suffix); longer ones exceed what the reader promises to represent and are judged for position only
+	for i := 0; i < n/4+16; i++ {
+		evals++
+		lc := genLongCodes(r)
+		witness := fmt.Sprintf("%s: %d bits, codes with %v leading zeros, marker a5", hx.Hex(lc.data), lc.p, lc.qs)
+		rd := bits.NewEBSPReader(bytes.NewReader(lc.data))
+		rd.Read(lc.p)
+		bad := false
+		for k, z := range lc.qs {
+			var got uint64
+			if i%3 == 2 {
+				sv := rd.ReadSignedGolomb()
+				if sv > 0 {
+					got = uint64(sv)*2 - 1
+				} else {
+					got = uint64(-sv) * 2
+				}
+			} else {
+				got = uint64(rd.ReadExpGolomb())
+			}
+			if rd.AccError() != nil {
+				fail("bits.EBSPReader.ReadExpGolomb", "long-code-error", witness, fmt.Sprintf("code %d is complete, yet the error %v was set", k, rd.AccError()))
+				bad = true
+				break
+			}
+			if z <= 57 {
+				var suf uint64
+				for _, b := range lc.sufs[k] {
+					suf = suf<<1 | uint64(b)
+				}
+				if want := (uint64(1)<<uint(z) - 1) + suf; got != want {
+					fail("bits.EBSPReader.ReadExpGolomb", "golomb-value", witness, fmt.Sprintf("code %d: read %d, codeNum is %d", k, got, want))
+					bad = true
+					break
+				}
+			}
+		}
+		if bad {
+			continue
+		}
+		if m := rd.Read(8); m != 0xa5 || rd.AccError() != nil {
+			fail("bits.EBSPReader.ReadExpGolomb", "long-code-position", witness, fmt.Sprintf("the byte behind the codes was read as %x err=%v", m, rd.AccError()))
+		}
+	}
 	for i := 0; i < n/4+8; i++ {
 		evals++
 		// values of widths 1..32 through the real Writer; every second case is padded to whole bytes by the ops themselves
